@@ -167,6 +167,32 @@ def run_c01_inputs(ctx, shard):
             cooler.create_cooler(uri, bins, pixels, **kw)
             final_scan(c, path)
             ctx.sample({"op": "create", "family": K["fam"], "form": form, "nbins": n, "nnz": len(P)}, limit=2)
+            if len(P) and k % 5 == 0:
+                # values at the edge of the stored integer type, given in an input dtype of the same width but other
+                # signedness (or wider): the creation is refused, or what it stores agrees with the recorded total
+                sdt, idt, val = [("int32", "uint32", 2**31), ("int32", "uint32", 2**32 - 1), ("uint32", "int32", -1),
+                                 ("int16", "uint16", 2**15), ("uint8", "int8", -3), ("int32", "int64", 2**31),
+                                 ("int32", "uint32", 2**31 - 1)][int(rng.integers(7))]
+                keys = sorted(P)
+                vals = np.ones(len(keys), dtype=idt)
+                vals[int(rng.integers(len(keys)))] = val
+                df2 = pd.DataFrame({"bin1_id": [a for a, _ in keys], "bin2_id": [b for _, b in keys], "count": vals})
+                p2 = ctx.path()
+                c.feature("create:value-at-integer-edge", f"create:value-at-integer-edge:{idt}->{sdt}")
+                try:
+                    cooler.create_cooler(p2, bins, df2 if k % 2 else iter([df2]), dtypes={"count": np.dtype(sdt)},
+                                         symmetric_upper=symm, ordered=True, **({} if symm else {"triucheck": False}))
+                    c.feature("create:value-at-integer-edge:stored")
+                    final_scan(c, p2)
+                    with h5py.File(p2, "r") as f2:
+                        st = f2["pixels/count"][:].astype(object).tolist()
+                    c.check(st == [int(v) for v in vals.tolist()], "edge-value-stored-differently",
+                            f"count values given as {idt} (one of them {val}) were stored in {sdt} as other values without error",
+                            lambda: {"stored": st[:10], "given": vals.tolist()[:10]})
+                except ValueError:
+                    c.feature("create:value-at-integer-edge:refused")
+                if os.path.exists(p2):
+                    os.remove(p2)
         if os.path.exists(path):
             os.remove(path)
 
